@@ -3,7 +3,7 @@
 (* query, equality and the produced objects' stability (C06..C09, C11) against *)
 (* the value algebra.  Every event carries the projected value of the real    *)
 (* input objects, so a parser defect does not make these checks fire.         *)
-EXTENDS TraceCore, UriResolve, UriNormalize, KnownFindings
+EXTENDS TraceCore, UriResolve, UriNormalize, UriRelativize, KnownFindings
 
 \* same components (host kind and value included) and the same path TEXT; the path structure is C11's business
 SameParts(a, b) == SameMeaning(a, b) /\ a.hk = b.hk /\ a.ht = b.ht /\ a.hb = b.hb
@@ -57,11 +57,31 @@ VEquals(x) ==
   \o FailIf(x.lib /\ ((x.res = 1) # (x.ta = x.tb)), "C11", "equal objects with different texts, or the reverse, among library-produced URIs")
   \o FailIf(~x.ro, "C12", "a read-only argument was modified")
 
+\* ---------------------------------------------------------------- RemoveBase (C10, C07)
+VRemoveBase(x) ==
+  LET S == ValOf(x.s)  B == ValOf(x.b)  md == (x.mode = 1) IN
+  IF x.rc # 0 THEN FailIf(~RelativizeOK(S, B, md, x.rc, S), "C10", "wrong return code for these operands")
+  ELSE LET Rf == ValOf(x.ref) IN
+       FailIf(~HasScheme(S) \/ ~HasScheme(B), "C10", "a non-absolute source or base was accepted")
+    \o (IF HasScheme(S) /\ HasScheme(B) THEN
+          FailX(~ResolvesBack(Rf, B, S), "C10", "the reference does not resolve against the base back to the source", [text |-> Recompose(RelativizeIdeal(S, B, md)), back |-> Recompose(ResolveT(Rf, B, FALSE))])
+       \o FailIf(S.sc # B.sc /\ ~Equal(Rf, S), "C10", "schemes differ but the result is not the source unchanged")
+       \o FailIf(S.sc = B.sc /\ HasScheme(Rf) /\ (IF md /\ SameAuth(S, B) THEN CanUseAbsPath(S, B) ELSE CanOmitScheme(S, B)), "C10", "scheme kept although a reference without it resolves to the source")
+       \o FailIf(S.sc = B.sc /\ HasHost(S) /\ SameAuth(S, B) /\ HasHost(Rf), "C10", "shared authority kept")
+       \o FailIf(md /\ ~HasScheme(Rf) /\ ~HasHost(Rf) /\ CanUseAbsPath(S, B) /\ ~Rf.abs, "C10", "domain-root mode but the path is not absolute")
+       \o FailIf(ResolvesBack(Rf, B, S) /\ x.backrc = 0 /\ ~Approx(DotNorm(ValOf(x.back)), DotNorm(S)), "C06", "the library's own resolution of the reference differs from the specification's")
+        ELSE <<>>)
+    \o FailIf(~WfOf(x.ref) \/ ~Stable(Rf), "C07", "created reference does not read back as held / is not well formed")
+    \o FailIf(x.text # Some(Recompose(Rf)), "C04", "recomposed reference differs from its components")
+    \o FailIf(x.leak # 0, "C13", "blocks of the supplied manager not returned by the free function")
+    \o FailIf(~x.ro, "C12", "a read-only argument was modified")
+
 VIdeal(x) == CASE x.e = "AddBase" -> VAddBase(x)
                [] x.e = "Normalize" -> VNormalize(x)
                [] x.e = "MaskReq" -> VMaskReq(x)
                [] x.e = "C09" -> VC09(x)
                [] x.e = "Equals" -> VEquals(x)
+               [] x.e = "RemoveBase" -> VRemoveBase(x)
                [] OTHER -> Fail("C06", "unknown event")
 
 \* an event the ideal specification rejects is accepted through an ENABLED named deviation only
